@@ -55,6 +55,14 @@ def gen_consts(rng, names, n):
     ints = {}   # name -> (type, value) for references
     for _ in range(n):
         name = names.fresh("K_")
+        if rng.random() < 0.12:
+            # (all-lower-case `source` / `entries` / `device` .. would be captured as constant patterns by the template's
+            # own bindings - known finding KF-C01-const-captures-binding - and are exercised by C01 only)
+            special = [w for w in ("Source", "Push_Constant_Stages", "Entry_Main", "entry_Main", "Entry_Vs_Main", "push_constant_stages",
+                                   "layout_descriptor0", "vertex_attributes", "Wg") if w.lower() not in names.used]
+            if special:
+                name = rng.choice(special)
+                names.used.add(name.lower())
         kind = rng.choice(["i32", "u32", "f32", "bool", "i32_inferred", "f32_inferred", "u32_expr", "i32_expr",
                            "ref", "f64", "i64", "u64", "vec", "array", "f32_extreme", "i32_extreme", "neg_zero",
                            "f32_expr", "bool_expr", "zero_scalar", "zero_vec", "neg_zero_expr", "splat"])
@@ -170,6 +178,13 @@ def gen_overrides(rng, names, n):
     prev = []
     for _ in range(n):
         name = names.fresh("ov_")
+        if rng.random() < 0.12:
+            # weak / future Rust keywords and prelude-ish words: ordinary identifiers for WGSL and for edition 2021
+            special = [w for w in ("gen", "raw", "safe", "r", "try_", "Some_", "value", "entries", "self_")
+                       if w not in names.used]
+            if special:
+                name = rng.choice(special)
+                names.used.add(name)
         ty = rng.choice(["bool", "i32", "u32", "f32"])
         has_id = rng.random() < 0.4
         oid = None
